@@ -10,18 +10,24 @@ def run(ctx):
     for i in range(16 if q else 128):
         cs.append(dict(seed=ctx.seed + 2000 + i, slots=[1, 4, 16, 64][i % 4], events=2, prims=[2, 4][i % 2],
                        emax=[3, 30, 300, 3000][i % 4], dets=0, fluct=i % 2, scale=[0.3, 1, 5, 20, 50][i % 5],
-                       order="none", inflight=0, maxsteps=60000,
+                       order=["none", "init_charge", "none", "reindex_shuffle"][(i // 4) % 4], inflight=[0, 2][(i // 2) % 2],
+                       maxsteps=60000,
                        secfactor=[3, 3, 0.6, 0.3][i % 4], diag=0, msc=[0, 1][(i // 3) % 2],
                        field=[0, 0, 1][i % 3]))
     # conversions just above threshold: positrons born below their production cut (2mc^2 must be deposited)
     for i in range(6 if q else 40):
         cs.append(dict(seed=ctx.seed + 2500 + i, slots=[4, 16][i % 2], events=6, prims=4, ptype=0, emin=1.03,
                        emax=[1.3, 2.0][i % 2], dets=0, fluct=0, scale=50, order="none", inflight=0, maxsteps=60000, diag=0))
+    # many queued mixed-charge initializers against few vacancies: the partitioned initialisation of init_charge
+    for i in range(4 if q else 24):
+        cs.append(dict(seed=ctx.seed + 2700 + i, slots=[2, 3, 4, 8][i % 4], events=2, prims=[6, 9][i % 2], emax=[30, 300][i % 2],
+                       dets=0, fluct=0, scale=[5, 20][i % 2], order="init_charge", inflight=[0, 1][i % 2], maxsteps=60000, diag=0))
     tot, outs = coreloop.validate(ctx, cs, ["C01."], nshards=8)
     # exact ledgers: TLC-simulated behaviours replayed with scripted physics (dyadic energies, sub-cut electrons,
     # photons and positrons, positron parents): the balance must close to the quantum
     rtot, rsamples = coreloop.replay(ctx, [("replay_none2", dict(NSlots=2, InitCap=3, Charge=False)),
-                                           ("replay_none3", dict(NSlots=3, InitCap=4, Charge=False))],
+                                           ("replay_none3", dict(NSlots=3, InitCap=4, Charge=False)),
+                                           ("replay_charge3", dict(NSlots=3, InitCap=4, Charge=True))],
                                      120 if q else 1200, ["C01."], depth=90, per_cfg=200 if q else 3000)
     tot["replay"] = rtot
     ctx.coverage.update({"states": st, "transitions": tr, "traces_validated_against_impl": tot["runs"] + rtot["runs"],
